@@ -250,6 +250,34 @@ def check_genuine(chunk_index, nchunks):
 
 
 # ------------------------------------------------------------------ custom classes
+def check_same_name():
+    """two different exception classes with the SAME bare name in different (already imported) modules, arriving one after
+    the other in either order: each must be rebuilt as (a subclass of) its own class, with its own bases"""
+    import types as _types
+    env.silence_unraisable()
+    viol = []
+    mods = {}
+    for mname, base in (("c09_store_errors", LookupError), ("c09_codec_errors", ValueError)):
+        m = _types.ModuleType(mname)
+        m.Error = type("Error", (base,), {"__module__": mname})
+        sys.modules[mname] = m
+        mods[mname] = (m.Error, base)
+    n = 0
+    try:
+        for order in (("c09_store_errors", "c09_codec_errors"), ("c09_codec_errors", "c09_store_errors")):
+            for mname in order + order:
+                n += 1
+                cls, base = mods[mname]
+                (how, got), left = receive(((mname, "Error"), ("x", 1), (), "remote tb"), True, True)
+                if how != "raised" or not isinstance(got, cls) or not isinstance(got, base) or tuple(got.args) != ("x", 1):
+                    viol.append(("same-name:class-not-preserved:%s" % base.__name__,
+                                 "order %r: %s.Error arrived as %r (mro %r)" % (order, mname, got, [c.__module__ + "." + c.__name__ for c in type(got).__mro__][:4])))
+    finally:
+        for mname in mods:
+            sys.modules.pop(mname, None)
+    return n, viol
+
+
 def check_custom():
     env.silence_unraisable()
     viol = []
@@ -488,6 +516,11 @@ def main(tier, replay_obj=None):
     for c in classes:
         res.nontrivial("class:" + c)
     res.parts["genuine"] = {"instances": len(insts), "classes": len(classes)}
+    n, viol = check_same_name()
+    res.evaluations += n
+    res.parts["same-name-classes"] = {"cases": n}
+    for sig, text in viol:
+        res.violation(sig, text, {"part": "custom"})
     n, viol = check_custom()
     res.evaluations += n
     res.parts["custom"] = {"cases": n}
